@@ -186,6 +186,70 @@ def file_mode_keys(rng, n):
     return fails
 
 
+def _probe_fn(x, y=0):
+    return x
+
+
+PROBE_CONFIGS = [({"cores": 1, "cwd": None}, {}), ({"cores": 2, "cwd": "/a"}, {}), ({"cores": 1, "cwd": None}, {"cwd": "/b"}),
+                 ({"cores": 1, "cwd": "/a", "threads_per_core": 2}, {"cores": 2}), ({"cwd": None, "cores": 1}, {"cores": 1, "cwd": "/c"})]
+
+
+def probe_main():
+    """run in a fresh interpreter (python -c 'import C08; C08.probe_main()'): prints the cache keys this process computes for
+    a fixed list of calls - interactive cache (serialize_funct_h5 as the worker thread calls it) and file mode (through the
+    real execute_tasks_h5 with a recording launcher)"""
+    import json
+    import queue
+    import shutil
+    import tempfile
+    from concurrent.futures import Future
+    ser = importlib.import_module("executorlib.standalone.serialize")
+    csh = importlib.import_module("executorlib.cache.shared")
+    out = []
+    for args, kw, rd in [([1], {}, {}), ([1, "a"], {"y": 2}, {}), ([[1, 2]], {"y": {"b": 1, "a": 2}}, {"cores": 2, "cwd": "/x"})]:
+        out.append(ser.serialize_funct_h5(_probe_fn, args, kw, rd)[0])
+    for exec_rd, rd in PROBE_CONFIGS:
+        d = tempfile.mkdtemp(prefix="verif-key-")
+        started = []
+
+        def launcher(command, task_dependent_lst=[], resource_dict=None, config_directory=None, backend=None, cache_directory=None, **kw2):
+            started.append(os.path.basename(command[-1]))
+            return object()
+        q = queue.Queue()
+        q.put({"fn": _probe_fn, "args": (1,), "kwargs": {"y": 3}, "future": Future(), "resource_dict": dict(rd)})
+        q.put({"shutdown": True, "wait": True})
+        try:
+            csh.execute_tasks_h5(future_queue=q, cache_directory=d, execute_function=launcher, resource_dict=dict(exec_rd),
+                                 terminate_function=None)
+        finally:
+            shutil.rmtree(d, ignore_errors=True)
+        out.append(started)
+    print("KEYS " + json.dumps(out))
+
+
+def cross_process_keys(seeds=("1", "2", "3")):
+    """C09 'in a new Python process': the key of one and the same call must not depend on the interpreter that computes it
+    (string hash randomisation, set / dict iteration order)"""
+    import json
+    import subprocess
+    outs = {}
+    for sd in seeds:
+        env = dict(os.environ, PYTHONHASHSEED=sd)
+        env["PYTHONPATH"] = os.pathsep.join([env.get("PYTHONPATH", ""), os.path.dirname(os.path.abspath(__file__))])
+        p = subprocess.run([sys.executable, "-c", "import C08; C08.probe_main()"], env=env, capture_output=True, text=True, timeout=120)
+        line = [l for l in p.stdout.split("\n") if l.startswith("KEYS ")]
+        if p.returncode != 0 or not line:
+            return [{"why": "key probe in a fresh interpreter failed: %s" % (p.stderr[-400:],), "tie": True}]
+        outs[sd] = json.loads(line[0][5:])
+    ref = outs[seeds[0]]
+    for sd in seeds[1:]:
+        for k, (a, b) in enumerate(zip(ref, outs[sd])):
+            if a != b:
+                return [{"why": "the cache key of one and the same call differs between two Python processes (PYTHONHASHSEED=%s: %r, "
+                                "PYTHONHASHSEED=%s: %r; probe call %d): a new process would execute the call again" % (seeds[0], a, sd, b, k)}]
+    return []
+
+
 def extra(res, hits):
     rng = res.rng
     fails = []
